@@ -35,6 +35,7 @@ pub struct Case {
 }
 
 fn exec<D: Doc>(p: &PrepDoc<D>, entry: Entry, k: usize, scratch: &std::path::Path) -> Result<(u64, &'static str), Violation> {
+    crate::ctx::scrub_stack();
     let len = p.b.len();
     if k >= len {
         return Ok((0, "not-a-strict-prefix"));
